@@ -235,7 +235,9 @@ func subRSA(out string, seed uint64, tier string, arg string) {
 		}
 		k := int(need.Int64())
 		rep.count(fmt.Sprintf("fermat-need:%d", k))
-		for _, r := range []int{k - 1, k, k + 1, 0, 1} {
+		// the same modulus under a sequence of Rounds settings, rising and then falling again: each run must depend on
+		// its own configuration only (a verdict remembered from an earlier, larger or smaller, budget shows up here)
+		for _, r := range []int{k - 1, k, k + 1, 0, 1, k - 1, k, 0} {
 			if r < 0 {
 				continue
 			}
